@@ -101,6 +101,12 @@ func classify(op, input string, sources map[string]int, f func() error) (ev apiE
 		return
 	}
 	ev.Kind, ev.Code, ev.Pos, ev.Msg = "liberr", le.ErrCode(), int(le.Position()), le.Message()
+	if strings.HasPrefix(ev.Msg, "runtime error:") {
+		// a Go run-time panic (nil dereference, index out of range, makeslice) which the library recovered and handed out as the
+		// text of an error: the call did panic, the caller just is not told so
+		ev.Kind, ev.Msg = "panic", "recovered inside the library and returned as an error: "+ev.Msg
+		return
+	}
 	ev.SrcLen = sources[""]
 	if fn, ok := le.(interface{ Filename() string }); ok {
 		ev.File = fn.Filename()
@@ -175,6 +181,25 @@ func apiCalls(text string, emit func(apiEvent)) {
 		}
 		return r.Validate(jdoc.New("doc", "{}"))
 	}))
+	// as user type that is referred to in every other way a schema can refer to a type
+	for _, rt := range []string{`1 // {type: "@t"}`, `{@t: 1}`, `1 // {or: ["@t", "integer"]}`, `{} // {additionalProperties: "@t"}`, `{} // {allOf: "@t"}`, `[@t, @t | @t]`} {
+		rt := rt
+		emit(classify("type.AddType+Check;Validate;Example via "+rt, in, src(map[string]int{"root": len(rt), "@t": len(text), "doc": 1}), func() error {
+			r := jschema.New("root", rt)
+			if e := r.AddType("@t", jschema.New("@t", text)); e != nil {
+				return e
+			}
+			if e := r.Check(); e != nil {
+				_ = r.Validate(jdoc.New("doc", "1"))
+				_, _ = r.Example()
+				return e
+			}
+			if _, e := r.Example(); e != nil {
+				return e
+			}
+			return r.Validate(jdoc.New("doc", "1"))
+		}))
+	}
 	// as enum rule
 	en := func() *enum.Enum { return enum.New("@e", text) }
 	emit(classify("enum.Len", in, src(map[string]int{"@e": len(text)}), func() error { _, e := en().Len(); return e }))
@@ -211,6 +236,12 @@ func apiCalls(text string, emit func(apiEvent)) {
 	}))
 	emit(classify("doc.Validate(any)", in, src(map[string]int{"doc": len(text), "root": 18}), func() error {
 		return jschema.New("root", `1 // {type: "any"}`).Validate(jdoc.New("doc", text))
+	}))
+	emit(classify("doc.Validate(number rules)", in, src(map[string]int{"doc": len(text), "root": 40}), func() error {
+		if e := jschema.New("root", `1 // {min: 0}`).Validate(jdoc.New("doc", text)); e != nil {
+			return e
+		}
+		return jschema.New("root", `1.5 // {type: "decimal", precision: 2}`).Validate(jdoc.New("doc", text))
 	}))
 	emit(classify("doc.Validate(object)", in, src(map[string]int{"doc": len(text), "root": 30}), func() error {
 		return jschema.New("root", "{\"a\": 1, \"b\": [1] // {optional: true}\n}").Validate(jdoc.New("doc", text))
@@ -294,12 +325,33 @@ func init() {
 			// numerals at the edges of what fits anywhere: long exponents, long mantissas, many leading zeros of the exponent
 			"1e0000001", "1E+0000000001", "-0.0e-0000001", "1e99999", "1e-99999", "123456789012345678901234567890", "0." + strings.Repeat("0123456789", 30),
 			"-" + strings.Repeat("9", 400), "1e" + strings.Repeat("0", 300) + "1",
+			// exponents no memory can hold
+			"1e9223372036854775807", "1e-9223372036854775807", "1e92233720368547758070", "-1.5E+4000000000", "1e2000000000", "1e-2000000000",
 			// regex types the example generator cannot serve (empty classes)
 			"/[^\\x00-\\x{10FFFF}]/", "/[^\\s\\S]/", "/a[^\\x00-\\x{10FFFF}]+b/",
 			// lines longer than the excerpt of an error message, made of bytes that are not characters on their own
 			strings.Repeat("\x80", 300), strings.Repeat("\u00e9", 150) + "x", "{\n" + strings.Repeat("\xbf", 260), strings.Repeat("a", 198) + "\u20ac" + strings.Repeat("b", 50)} {
 			try(t)
 		}
+		// files without names: an error in a property inherited through allOf still lies in the text of the type it was written in
+		emit(classify("unnamed-files.Check;render", "@child inheriting x: 5 // {min: 10} at offset 56", map[string]int{"": 70}, func() error {
+			r := jschema.New("", "@child")
+			if e := r.AddType("@parent", jschema.New("", "{\n"+strings.Repeat(" ", 49)+"\"x\": 5 // {min: 10}\n}")); e != nil {
+				return e
+			}
+			if e := r.AddType("@child", jschema.New("", "{} // {allOf: \"@parent\"}")); e != nil {
+				return e
+			}
+			e := r.Check()
+			if de, ok := e.(jerr.DocumentError); ok {
+				_ = de.Line()
+				_ = de.SourceSubString()
+				if !strings.Contains(de.SourceSubString(), "min: 10") {
+					return wrapNoRender{jerr.NewDocumentError(nil, jerr.Format(jerr.ErrGeneric, "the line shown is not the line of the error: "+de.SourceSubString()))}
+				}
+			}
+			return e
+		}))
 		// a required reference cycle (the recursion error is a recorded finding: its witness is always part of the trace)
 		emit(classify("recursion.Check", "@t0 with @t0 = @t0", map[string]int{"": 3, "root": 3, "@t0": 3}, func() error {
 			r := jschema.New("root", "@t0")
